@@ -142,7 +142,14 @@ func c20Child(args []string) {
 	go func() {
 		defer wg.Done()
 		for i := 1; !stop.Load(); i++ {
-			time.Sleep(time.Duration(150+i%7*40) * time.Millisecond)
+			// every reload replaces pike's upstream transports, whose idle connections stay open for their
+			// 90 s idle timeout (about 270 descriptors per second at this pace): long runs reload four times
+			// more slowly so that the process stays far below its descriptor limit
+			pace := 1
+			if seconds > 20 {
+				pace = 4
+			}
+			time.Sleep(time.Duration(pace*(150+i%7*40)) * time.Millisecond)
 			if err := hx.Apply(mkCfg(i % 2)); err != nil {
 				viol("reload_failed", err.Error(), nil)
 			}
